@@ -623,6 +623,10 @@ func extAfterFunc(fr *frame, args []value) value {
 		in.timers = make(map[*value]*timerState)
 	}
 	in.timers[p] = st
+	if d, ok := args[0].(int64); ok && d >= int64(3600e9) {
+		// a timer of an hour or more does not fire within the horizon of a path
+		return p
+	}
 	body := &nativeFn{name: "timer", fn: func(fr2 *frame, _ []value) value {
 		if in.path.choice(in, 2, "timer") == 1 {
 			return nil // never fires within the horizon of this path
